@@ -1,9 +1,9 @@
 SPECIFICATION Spec
 CONSTANTS
-  MinWays = 0
-  MaxWays = 4
-  NKeys = 3
-  Snapshots = FALSE
+  MinWays = 2
+  MaxWays = 2
+  NKeys = 2
+  Snapshots = TRUE
 VIEW View
 ACTION_CONSTRAINT Emit
 INVARIANT TypeOK
